@@ -465,6 +465,7 @@ static bool g_fault_fired = false;
 static long g_fault_points = 0;
 void faults_arm(unsigned kinds) { g_fault_kinds = kinds; }
 void faults_disarm() { g_fault_kinds = 0; }
+bool fault_here(unsigned kind);
 bool fault_fired() { return g_fault_fired; }
 bool fault_here(unsigned kind) {
   if (g_in_runtime || !(g_fault_kinds & kind) || g_fault_fired || !g_solver) return false;
@@ -478,6 +479,11 @@ bool fault_here(unsigned kind) {
   return fire;
 }
 
+} // namespace symrt
+#define RT_FAULT(kind) symrt::fault_here(kind)
+#include "alloc_hooks.inc"
+namespace symrt {
+void faults_ledger(bool on) { ledger_arm(on); }
 // ------------------------------------------------------------------ registry
 Harness_Reg::Harness_Reg(const char* name, void (*fn)()) {
   if (!g_harnesses) g_harnesses = new std::map<std::string, void (*)()>();
@@ -500,7 +506,7 @@ static void run_path(void (*fn)(), const std::string& prefix) {
   g_prefix = parse_prefix(prefix);
   g_decisions.clear(); g_dec_str.clear(); g_have_model = false; g_fresh = 0; g_inputs.clear(); g_inputs_json = "{}"; sync_inputs_buf();
   g_facts.clear(); g_callsite[0] = 0; g_ps = Path_Stats(); g_pending_abort = false; g_viol_this_path = 0;
-  g_fault_kinds = 0; g_fault_fired = false; g_fault_points = 0; g_obligation_mode = 0;
+  g_fault_kinds = 0; g_fault_fired = false; g_fault_points = 0; g_obligation_mode = 0; g_ledger_on = false; g_live_blocks = 0;
   z3::solver s(ctx());
   z3::params p(ctx()); p.set("timeout", g_query_timeout_ms); s.set(p);
   g_solver = &s;
